@@ -587,7 +587,8 @@ class Bits:
 
     def _setbits(self, bs: BitsType, length: None = None) -> None:
         bs = Bits._create_from_bitstype(bs)
-        self._bitstore = bs._bitstore
+        # Take a copy so that the two objects can never share (or re-flag) the same store.
+        self._bitstore = bs._bitstore._copy()
 
     def _setp3binary(self, f: float) -> None:
         self._bitstore = bitstore_helpers.p3binary2bitstore(f)
